@@ -139,6 +139,51 @@ def w_image(pid, tier, seed, job):
     return ctx.dump()
 
 
+def w_image2(pid, tier, seed, job):
+    """two partitions: a cut anywhere inside the SECOND partition (its header, volume table, allocation table, directory, data)
+    leaves every file of the first exported complete; whatever is still exported of the second is a prefix"""
+    import akai_writer as AW
+    ctx = F.Ctx(pid, tier, seed)
+    rng = random.Random(job)
+    parts = []
+    for pi in range(2):
+        files = [AW.SampleFile(name="%s%d" % (n, pi), pcm=struct.pack("<%dH" % nw, *[(977 * (pi + 1) * (i + 1) + 3 * w) % 65536 for w in range(nw)]))
+                 for i, (n, nw) in enumerate(zip(["KICK", "SNARE", "BASS"], [rng.choice([10, 3000, 6000]) for _ in range(rng.randint(1, 3))]))]
+        parts.append(AW.Partition([AW.Volume("VOL %d" % pi, files), AW.Volume("EXTRA", [AW.SampleFile(name="X", pcm=b"\x01\x00\x02\x00")])], size_sectors=rng.choice([24, 40])))
+    img = AW.image_bytes(parts)
+    with R.TempImage(img) as path:
+        r0, tree0, rep0 = R.export(path)
+    full = pcm_of(tree0)
+    base_case = {"seed": job, "two_partitions": True}
+    if not ctx.require("the complete image exports", base_case, r0.exc is None and all(v[0] for v in full.values()) and any(p.startswith("B/") for p in full), r0.exc_name):
+        return ctx.dump()
+    b0 = parts[0].size_sectors * SECTOR
+    first = {p: v for p, v in full.items() if p.startswith("A/")}
+    cuts = {b0 + d for d in (0, 1, 2, 3, 100, 201, 202, 203, 209, 210, 213, 214, 215, 216, 217, 218, 219, 230, 233, 1000, 1001, 1801, 1802, 1803, 1804, 1805,
+                             5000, 8191, 8192, 8193, 16384, 24573, 24574, 24575, 24576)}
+    cuts |= {b0 + 202 + 16 * k + d for k in (0, 1, 2, 99) for d in (0, 11, 12, 13, 14, 15)}
+    for _ in range(12 if tier == "quick" else 80):
+        cuts.add(rng.randrange(b0, len(img)))
+    for c in sorted(x for x in cuts if b0 <= x < len(img)):
+        with R.TempImage(img[:c]) as path:
+            r, tree, rep = R.export(path)
+        case = dict(base_case, cut=c, offset_in_second_partition=c - b0)
+        ctx.count("akai_cut2", (job, c), nontrivial=True)
+        got = pcm_of({p: tree[p] for p in rep if p in tree})
+        if not ctx.require("export of the truncated image finishes without exception", case, r.exc is None, r.exc_name):
+            continue
+        for p, v in first.items():
+            ctx.require("a file whose header sectors, directory entries and data sectors all lie before the cut is exported complete", dict(case, file=p),
+                        p in got and got[p][0] and got[p][2] == v[2], {"reported": sorted(got)})
+        for p, (ok, why, pcm, ch) in got.items():
+            if not ctx.require("every reported file is a well-formed WAV", dict(case, file=p), ok, why):
+                continue
+            if ctx.require("every reported file is also reported for the complete image", dict(case, file=p), p in full, sorted(full)):
+                ctx.require("reported PCM is a prefix of the complete image's PCM for the same path (no foreign bytes)", dict(case, file=p),
+                            full[p][2][:len(pcm)] == pcm and ch == full[p][3], {"len": len(pcm), "full": len(full[p][2])})
+    return ctx.dump()
+
+
 def w_roland(pid, tier, seed, job):
     """Roland S-7xx image cut at cluster boundaries -1/0/+1, inside the FAT / directory / parameter areas and at random offsets"""
     ctx = F.Ctx(pid, tier, seed)
@@ -436,6 +481,7 @@ def run(ctx):
     F.pmap(ctx, w_drain, [ctx.seed * 7 + i for i in range(3 if ctx.quick else 12)])
     F.pmap(ctx, w_views, [ctx.seed * 3 + i for i in range(4 if ctx.quick else 16)])
     F.pmap(ctx, w_image, [ctx.seed * 131 + i for i in range(12 if ctx.quick else 96)])
+    F.pmap(ctx, w_image2, [ctx.seed * 137 + i for i in range(4 if ctx.quick else 32)])
     F.pmap(ctx, w_cdda, [ctx.seed * 977 + i for i in range(8 if ctx.quick else 48)])
     F.pmap(ctx, w_roland, [ctx.seed * 61 + i for i in range(4 if ctx.quick else 24)])
 
